@@ -786,7 +786,7 @@ class Interp:
     def setattr_(self, o, attr, v):
         if not isinstance(o, Obj):
             raise Unsupported(f"attribute store on {o!r}")
-        if o.cls is None or o.kind in ("child", "foreign"):
+        if o.cls is None or o.kind == "foreign" or (o.kind == "child" and not o.in_init):
             return self.contracts.child_setattr(self, o, attr, v)
         cur_self = self.frames[-1].vars.get("self") if self.frames else None
         fname = self.frames[-1].funcdef.name if self.frames and self.frames[-1].funcdef else ""
